@@ -75,3 +75,8 @@ VARIANTS += [
       rule='C11-SPECIFICS', key="line='value deepthought'"),
     M('C11', 'refactor-specifics-flags-in-a-tuple', E(GT, "                if any((datelike, dtlike, host, ip, cwd, homedir, tmpdir,\n                        user)):", "                found = (datelike, dtlike, host, ip, cwd, homedir, tmpdir, user)\n                if any(found):"), kind='refactor'),
 ]
+
+VARIANTS += [
+    M('C11', 'run-directories-made-without-looking', E(GT, "                if not os.path.exists(d):\n                    os.mkdir(d)", "                os.mkdir(d)"), rule='C11-MKDIRSAFE', key='os.mkdir(d)'),
+    M('C11', 'refactor-run-directories-with-makedirs', E(GT, "                if not os.path.exists(d):\n                    os.mkdir(d)", "                os.makedirs(d, exist_ok=True)"), kind='refactor'),
+]
